@@ -420,6 +420,9 @@ MUTATIONS = [
     {'id': 'c05-revert-pmd-coef-zero-is-a-value', 'props': ['C05'], 'tests': 'tests/test_parser.py tests/test_network_functions.py',
      'desc': 'revert of the fix: an element-level pmd_coef of 0 is treated as missing and replaced by the library value',
      'edits': [('gnpy/core/utils.py', "    if 'pmd_coef' in dict1 and dict1['pmd_coef'] is None \\\n", "    if 'pmd_coef' in dict1 and not dict1['pmd_coef'] \\\n")]},
+    {'id': 'c20-revert-pmd-zero-cell-is-a-value', 'props': ['C20'], 'tests': 'tests/test_parser.py',
+     'desc': 'revert of the fix: a PMD cell of 0 is dropped by the converter (east side)',
+     'edits': [('gnpy/tools/convert.py', "    if fiber.east_pmd is not None:", "    if fiber.east_pmd:")]},
     {'id': 'c11-revert-explicit-ispart', 'props': ['C11'], 'tests': 'tests/test_path_computation_functions.py tests/test_disjunction.py',
      'desc': 'revert of fix e50d35fe: explicit route returned without checking the listed nodes are crossed in order',
      'edits': [('gnpy/topology/request.py', "    if total_path is not None and ispart(nodes_list, total_path):",
